@@ -69,7 +69,7 @@ func processSSDPNotify(raw []byte) (name packet.NameEntry, location string, err 
 		options := strings.Split(cacheControl, "=")
 		if len(options)^2 == 0 { // make sure it is pairs of key / value
 			for i := range options {
-				if strings.ToLower(options[i]) == "max-age" {
+				if strings.ToLower(options[i]) == "max-age" && i+1 < len(options) {
 					seconds, _ = strconv.Atoi(options[i+1])
 					break
 				}
